@@ -49,6 +49,29 @@
       that calls a fuelled function passes its fuel on;
     * the callback  iter func(seg Segment, item int) bool  ↦  iter : σ → S → Int → σ × Bool  and a state
       st' : σ threaded through the body; a function with a callback returns (final state, result).
+    * interface{} ↦ Dyn F: nil or one constructor per dynamic type the source asserts (x.(*rNode),
+      x.(int)); x.(T) ↦ Dyn.asT x (Option, none = Go panic); a value stored where an interface{} is
+      expected is wrapped in its constructor; the structs that hold interface{} values (rRect, rNode)
+      are inductive types generated in one mutual block with Dyn, with projection functions; a pointer
+      to such a plain struct (*rRect, *rNode) is passed as the value;
+    * PATHS: x := &path, x := path.(*T) and x := y (y the receiver or such an x) make x a NAME FOR THE
+      PATH (root variable, fields, list indices evaluated once at the declaration, type assertions):
+      every read through x re-reads the path, every store through x (x.f = v, x.m() for a mutator m)
+      rebuilds the root variable; a local p := new(T) that is stored into a structure (s.data = p)
+      denotes that place from then on.  Struct values are copied; Go's copies of an rRect share the node
+      their data points to, which is sound here because at most one copy is used afterwards (the source
+      overwrites or abandons the other) — this ownership discipline is NOT checked by the translator;
+    * a pointer parameter the body stores through (fit's target, splitLargestAxisEdgeSnap's right) is an
+      in-out parameter: passed as the value, its final value returned after the receiver; the caller's
+      &path argument is read before and stored back after the call;
+    * a for loop whose body assigns the loop variable, or whose bound depends on what the body
+      assigns, ↦ loopW fuel state cond body (cond, body and post each pass; the function gets a fuel
+      parameter, none when exhausted);
+    * s == nil on a []float64 ↦ ops.floatsIsNil s (the elements do not determine it); a [N]byte array ↦ D
+      (ops.bytesZero N), b[:] of it ↦ itself; x.a[:] of a fixed array ↦ the list of its elements;
+      panic(…) ↦ none; make([]T, n) ↦ List.replicate n.toNat zero (a negative n, a Go panic, gives []);
+      the second callback type func(min, max []float64, value interface{}) bool ↦
+      iter : σ → List F → List F → Dyn F → σ × Bool.
   Anything outside the recognised subset appears below as  opaque <name>_unrecognised : Unit  with the
   reason; a function that calls an unrecognised function is unrecognised itself.
 -/
